@@ -9,6 +9,7 @@ In this context ROI is a 2d slice of an image. For example a top left corner of 
 will have an ROI that can be constructed with :py:func:`numpy.s_` like this: ``s_[0:10, 0:10]``.
 """
 import math
+import operator
 from collections import abc
 from typing import List, Optional, Protocol, Sequence, Tuple, Union, overload
 
@@ -242,7 +243,7 @@ class VariableSizedTiles:
 
     def __init__(self, chunks: Chunks2d) -> None:
         self._offsets = tuple(
-            np.asarray([0, *idx], dtype="int32").cumsum(dtype="int32") for idx in chunks
+            np.asarray([0, *idx], dtype="int64").cumsum(dtype="int64") for idx in chunks
         )
 
     def crop(self, roi: ROI) -> "VariableSizedTiles":
@@ -266,7 +267,16 @@ class VariableSizedTiles:
         :raises: :py:class:`IndexError` when index is outside of ``[(0,0) -> .shape)``.
         """
         idx = iyx_(idx)
-        ny, nx = (int(a[i + 1]) - int(a[i]) for a, i in zip(self._offsets, idx.yx))
+
+        def _sz(a: np.ndarray, i: int) -> int:
+            n = len(a) - 1
+            if i < 0:  # numpy style index from the right
+                i = n + i
+            if not 0 <= i < n:
+                raise IndexError(f"Index {idx} is out of range")
+            return int(a[i + 1]) - int(a[i])
+
+        ny, nx = (_sz(a, i) for a, i in zip(self._offsets, idx.yx))
         return Shape2d(x=nx, y=ny)
 
     @property
@@ -534,7 +544,8 @@ def _norm_slice_or_error(s: SomeSlice) -> NormalizedSlice:
 
 
 def _norm_slice(s: SomeSlice, n: int) -> NormalizedSlice:
-    if isinstance(s, int):
+    if not isinstance(s, slice):
+        s = operator.index(s)  # int, numpy integers
         if s < 0:
             s = n + s
         return slice(s, s + 1)
